@@ -42,13 +42,15 @@ func buildPatchExpiredSelectionPredicate(sw swamp.Swamp, filters *hydrapb.Filter
 
 	candidates := collectBucketCandidates(sw, plan.Hints)
 	set := candidateKeySet(candidates)
-	residual := plan.Residual
 
+	// The candidate set was computed before the selection lock and may be
+	// stale: it is only a fast-reject. Survivors are tested against the
+	// full filter on the live record, not just the plan's residual.
 	return func(t treasure.Treasure) bool {
 		if _, in := set[t.GetKey()]; !in {
 			return false
 		}
-		return evaluateNativeFilterGroup(t, residual)
+		return evaluateNativeFilterGroup(t, filters)
 	}, nil
 }
 
